@@ -47,12 +47,14 @@ impl Prop for C05 {
         "C05"
     }
     fn strategy(&self, tier: Tier) -> BoxedStrategy<C05Case> {
-        (recipe_strategy(tier.pick(16_000, 30_000) as u32), decisions_strategy(tier.pick(400, 1500) as usize))
-            .prop_map(|(recipe, decisions)| C05Case { recipe, decisions })
-            .boxed()
+        let general = (recipe_strategy(tier.pick(16_000, 30_000) as u32), decisions_strategy(tier.pick(400, 1500) as usize))
+            .prop_map(|(recipe, decisions)| C05Case { recipe, decisions });
+        // tiny end-of-stream graphs: short executions, dense coverage of their interleavings
+        let tiny = (tiny_recipe_strategy(), decisions_strategy(120)).prop_map(|(recipe, decisions)| C05Case { recipe, decisions });
+        prop_oneof![1 => general, 15 => tiny].boxed()
     }
     fn cases(&self, tier: Tier) -> u64 {
-        tier.pick(1_200, 40_000)
+        tier.pick(20_000, 600_000)
     }
     fn run(&self, case: &C05Case, ctx: &mut Ctx) {
         let r = &case.recipe;
@@ -108,9 +110,15 @@ impl Prop for C05 {
             ctx.class("data>capacity+preempted");
             ctx.nontrivial();
         }
+        if !r.src_pieces.is_empty() {
+            ctx.class("tiny-end-of-stream-graph");
+            if ex.preemptions >= 2 {
+                ctx.nontrivial();
+            }
+        }
     }
     fn rule(&self) -> String {
-        "generated: graph recipe (as C06: chains, balanced tee/merge diamonds, two-source merges, rate changers, HDLC packet stage, 1-2 sinks) x source lengths 0..16k (thorough 30k) x stream sizes 1-4 pages x generated add order x scheduler decision stream. MTGraph::run() executes unmodified; its block threads are coroutines on the shuttle runtime through the verif shim (thread spawn/join/exit, locks, timed waits with generated timeout firing, stream-end drops are scheduling points). Oracle: run() returns Ok and every sink holds exactly the sequence of the sequential reference executor (4 MB streams, topological order); deadlock and non-termination under the fair continuation are violations, budget exhaustion under an unfair prefix is inconclusive. Thorough adds real-thread runs (std primitives, OS scheduling). Non-trivial: a sink result larger than the stream capacity and >= 1 pre-emption; distinct = hash of (recipe, decisions).".into()
+        "generated: graph recipe (as C06: chains, balanced tee/merge diamonds, two-source merges, rate changers, HDLC packet stage, 1-2 sinks) x source lengths 0..16k (thorough 30k) x stream sizes 1-4 pages x generated add order x scheduler decision stream. MTGraph::run() executes unmodified; its block threads are coroutines on the shuttle runtime through the verif shim (thread spawn/join/exit, locks, timed waits with generated timeout firing, stream-end drops are scheduling points). Oracle: run() returns Ok and every sink holds exactly the sequence of the sequential reference executor (4 MB streams, topological order); deadlock and non-termination under the fair continuation are violations, budget exhaustion under an unfair prefix is inconclusive. Thorough adds real-thread runs (std primitives, OS scheduling). A second family (15 of 16 cases) are tiny end-of-stream graphs: a source that delivers 1-4 pieces of 1-5 samples on its own clock, 1-2 stages biased to rate changers and blocks asking for more than one sample, one sink (50-200 scheduling steps, so the decision stream covers a useful part of the interleavings around the last commit and the writer's exit). Non-trivial: a sink result larger than the stream capacity and >= 1 pre-emption, or a tiny graph with >= 2 pre-emptions; distinct = hash of (recipe, decisions).".into()
     }
     fn assumptions(&self) -> Vec<String> {
         vec![
